@@ -95,6 +95,15 @@ def cond_substituter(path):
             st = ev[1]
             if isinstance(st, ast.Assign) and len(st.targets) == 1 and isinstance(st.targets[0], ast.Name):
                 env[st.targets[0].id] = subst(st.value, env)
+            elif isinstance(st, ast.Assign) and len(st.targets) == 1 and isinstance(st.targets[0], (ast.Tuple, ast.List)):
+                val = subst(st.value, env)
+                tg = st.targets[0]
+                for k, e in enumerate(tg.elts):
+                    if isinstance(e, ast.Name):
+                        if isinstance(val, (ast.Tuple, ast.List)) and len(val.elts) == len(tg.elts):
+                            env[e.id] = val.elts[k]
+                        else:
+                            env.pop(e.id, None)
             elif isinstance(st, (ast.AugAssign,)) and isinstance(st.target, ast.Name):
                 if st.target.id in env:
                     env[st.target.id] = ast.BinOp(left=env[st.target.id], op=st.op, right=subst(st.value, env))
